@@ -62,6 +62,7 @@ package store
 //@   ensures reject_mismatch [C12]: verr == nil && !((version == 1 && writeAsV1) || (version == 2 && !writeAsV1)) ==> err != nil
 
 //@ func Resume
+//@   check a_finalized_file_is_cut_back_to_its_payload [C06,C12]: err == nil && !v1 && h2err == nil && cur(headerInFile).DataOffset != 0 ==> executed("iface.Truncate#0")
 //@   modifies wn(dataWriter), nrec(idx), all(byCid), all(byMh), all(byDg), all(writes), all(truncs), all(fsize)
 //@   call[io.NewOffsetReadSeeker#1] assert v2_header_follows_the_pragma [C12]: !v1 && ref(arg0) == ref(rw) && arg1 == 11
 //@   call[io.NewOffsetReadSeeker#2] assert v2_scans_the_payload_window [C06,C12]: !v1 && ref(arg0) == ref(dataReader) && arg1 == 0
